@@ -115,6 +115,8 @@ func init() {
 			if c.API != "" {
 				if strings.HasPrefix(c.API, "TwoHop") {
 					emit(runTwoHop(c.ID, c.API, c))
+				} else if strings.HasPrefix(c.API, "UnderId") {
+					emit(runUnderID(c.ID, c.API, c))
 				} else {
 					emit(runURLCase(c.ID, c.API, c))
 				}
@@ -122,6 +124,15 @@ func init() {
 			}
 			for _, api := range []string{"ExpandSchemaWithBasePath", "ResolveRefWithBase"} {
 				emit(runURLCase(urlCounter, api, c))
+			}
+			// the reference stands below a schema whose id is the enumerated base (a base URI embedded in the content,
+			// RFC 3986 5.1.1), written as the document itself or as its folder
+			if c.Base.Scheme != "file" || urlCounter%2 == 0 {
+				for _, api := range []string{"UnderId:doc", "UnderId:folder"} {
+					if c.Ref.Scheme == "" && !c.Ref.Abs && len(c.Ref.Segs) > 0 {
+						emit(runUnderID(urlCounter, api, c))
+					}
+				}
 			}
 			// second hop: the reference stands in a document that was itself reached through a $ref
 			for _, api := range []string{"TwoHop:schema", "TwoHop:response", "TwoHop:parameter"} {
@@ -275,5 +286,56 @@ func runTwoHop(id int, api string, c urlCase) (o *urlObs) {
 		g, _ := parseAURL(next)
 		o.Got = toAtoms(g)
 	}
+	return o
+}
+
+// runUnderID: the root lives elsewhere; the reference stands below a schema whose id is the enumerated base.
+func runUnderID(id int, api string, c urlCase) (o *urlObs) {
+	o = &urlObs{ID: id, API: api, Base: c.Base, Ref: c.Ref, Want: c.Want}
+	o.BaseS, o.RefS = renderURL(c.Base), renderURL(c.Ref)
+	bu, _ := url.Parse(o.BaseS)
+	if ru, err := url.Parse(o.RefS); err == nil {
+		nu := bu.ResolveReference(ru)
+		nu.Fragment = ""
+		na, _ := parseAURL(nu.String())
+		o.NetURL = toAtoms(na)
+	}
+	idS := o.BaseS
+	if api == "UnderId:folder" {
+		idS = o.BaseS[:strings.LastIndex(o.BaseS, "/")+1]
+	}
+	var first string
+	loader := func(u string) (json.RawMessage, error) {
+		if first == "" {
+			first = u
+		}
+		return json.RawMessage(`{"title":"doc","p":{"title":"x"}}`), nil
+	}
+	defer func() {
+		if r := recover(); r != nil {
+			o.Outcome = "panic"
+			o.Err = ascii(fmt.Sprint(r))
+		}
+		if o.Got.Segs == nil {
+			o.Got = AURL{Segs: []string{}, Ptr: []string{}}
+		}
+		if o.NetURL.Segs == nil {
+			o.NetURL = AURL{Segs: []string{}, Ptr: []string{}}
+		}
+	}()
+	var s spec.Schema
+	_ = json.Unmarshal([]byte(`{"id":`+string(mustJSON(idS))+`,"type":"object","properties":{"p":{"$ref":`+string(mustJSON(o.RefS))+`}}}`), &s)
+	err := spec.ExpandSchemaWithBasePath(&s, nil, &spec.ExpandOptions{RelativeBase: "http://outer.example/o/outer.json", PathLoader: loader})
+	if err != nil {
+		o.Err = ascii(err.Error())
+	}
+	if first == "" {
+		o.Outcome = "noload"
+		return o
+	}
+	o.Outcome = "loaded"
+	o.GotS = ascii(first)
+	g, _ := parseAURL(first)
+	o.Got = toAtoms(g)
 	return o
 }
